@@ -22,7 +22,7 @@ CONSTANTS
   TagsQ = {"none"}
   TagsG = {"none"}
   PayA = {"none", "v2", "bad"}
-  PayB = {"none", "v2", "dup"}
+  PayB = {"none", "dup"}
   PayQ = {"none"}
   PayG = {"none", "gbad"}
   WithGate = TRUE
